@@ -35,6 +35,7 @@ func checkC17(c *Check) {
 		}
 	}
 	c17R1(c, validate, merge, urls)
+	configBytesAsRead(c, "C17.R1", validate)
 	c17R2(c, validate, merge, defaults, oidcURLs)
 	c17R3(c, merge)
 	c17R4(c, validate)
@@ -514,6 +515,61 @@ func c17R2(c *Check, validate, merge, defaults, oidcURLs *ssa.Function) {
 			}
 			// in the per-fragment URL validator the test is unconditional: no return that can report success lies
 			// on a path that has not evaluated it (an early `return otherCheck(…)` would skip it)
+			// in the merge loop the logout test is applied to every OIDC filter that has a logout section: from the point where
+			// the filter is known to be an OIDC filter the next iteration is not reachable without the test, except over the
+			// edge on which the filter has no logout section (a `continue` for discovery-based filters in front of it skips it)
+			if fn == merge && strings.HasPrefix(key, "logout/") {
+				if head := loopHeadOf(cc.Block()); head != nil {
+					ffm := FactsOf(merge)
+					isOIDC := regionWhere(merge, func(fs FactSet) bool {
+						for cond, pol := range fs {
+							bo, ok := cond.(*ssa.BinOp)
+							if !ok {
+								continue
+							}
+							if call, _, isC := asCall(bo.X); isC && isCallTo(call, pkgCfgV1+".Filter.GetOidc") && isNilConst(bo.Y) {
+								if (bo.Op == token.EQL && !pol) || (bo.Op == token.NEQ && pol) {
+									return true
+								}
+							}
+						}
+						return false
+					})
+					noLogout := func(fs FactSet) bool {
+						for cond, pol := range fs {
+							bo, ok := cond.(*ssa.BinOp)
+							if !ok || !isNilConst(bo.Y) || (bo.Op == token.EQL) != pol {
+								continue
+							}
+							for _, l := range Leaves(bo.X, leafOpts{noConcat: true}) {
+								if lc, _, isC := asCall(resolveCell(stripConv(l))); isC && strings.HasSuffix(funcID(calleeOf(lc).Obj), "OIDCConfig.GetLogout") {
+									return true
+								}
+							}
+						}
+						return false
+					}
+					skipped := ""
+					for _, b := range isOIDC {
+						if cc.Block().Dominates(b) || len(b.Instrs) == 0 {
+							continue
+						}
+						// only blocks that lie before the test within the same iteration
+						if b != cc.Block() && reachAvoiding(nil, b, func(i ssa.Instruction) bool { return i.Block() == cc.Block() },
+							func(i ssa.Instruction) bool { return i.Block() == head }) == nil {
+							continue
+						}
+						hit := reachAvoidingEdges(b.Instrs[0], func(i ssa.Instruction) bool { return i.Block() == head },
+							func(i ssa.Instruction) bool { return i == ssa.Instruction(cc) || isReturn(i) },
+							func(p, q *ssa.BasicBlock) bool { return noLogout(ffm.OnEdge(p, q)) })
+						if hit != nil {
+							skipped = posOf(P, b.Instrs[0])
+						}
+					}
+					c.Obl(skipped == "", "C17.R2", key+"/applied-to-every-oidc-filter", P.Pos(cc.Pos()), want+": applied to every OIDC filter with a logout section",
+						want+": the next filter can be reached from "+skipped+" without this test although the filter is an OIDC filter with a logout section (an early `continue` skips it)")
+				}
+			}
 			if fn == oidcURLs {
 				for i, r := range returnsOf(fn) {
 					if len(r.Results) == 0 {
@@ -1248,4 +1304,37 @@ func counterLatch(x ssa.Value) (string, bool) {
 		}
 	}
 	return "", true
+}
+
+// configBytesAsRead: what is decoded is what the file contains: the bytes handed to protojson.Unmarshal are the
+// result of os.ReadFile of the configured path, untouched. A rewriting step in between (environment expansion,
+// templating, comment stripping) changes configured strings behind the back of every later check — `${…}` in
+// a client id or scope comes out as something else in the login redirect.
+func configBytesAsRead(c *Check, rule string, validate *ssa.Function) {
+	P := c.P
+	n := 0
+	for _, ci := range callsTo(validate, "google.golang.org/protobuf/encoding/protojson.Unmarshal", "google.golang.org/protobuf/encoding/protojson.UnmarshalOptions.Unmarshal") {
+		args := callArgs(ci)
+		var data ssa.Value
+		for _, a := range args {
+			if typeID(a.Type()) == "[]byte" || strings.HasSuffix(typeID(a.Type()), "[]uint8") {
+				data = a
+			}
+		}
+		if data == nil && len(args) > 0 {
+			data = args[0]
+		}
+		n++
+		bad := ""
+		for _, l := range Leaves(data, leafOpts{noConcat: true}) {
+			l = resolveCell(stripConv(l))
+			if rc, idx, isC := asCall(l); isC && idx == 0 && isCallToAny(rc, "os.ReadFile", "io/ioutil.ReadFile", "io.ReadAll") {
+				continue
+			}
+			bad = descDepth(l, 3)
+		}
+		c.Obl(bad == "", rule, "config-bytes-as-read/"+nthCallKey(ci), P.Pos(ci.Pos()), "the decoder is given the file's bytes as they were read",
+			"the configuration decoder is given "+bad+" instead of the bytes read from the file: configured strings no longer mean what the file says")
+	}
+	c.Obl(n >= 1, rule, "config-decode-site", P.Pos(validate.Pos()), fmt.Sprintf("%d decode site(s)", n), "no protojson.Unmarshal call found in Validate (anchor lost)")
 }
